@@ -10,7 +10,11 @@
 //!       `map_request_unary`), in any order on the one stream, long after the first error.
 //!
 //! Case grammar:  xdec <F[.h][.s<k>][.b|.w]> <O(n|m|t)*> <dec|pdec case, see framing.rs>
-//!     F flavour: h = truthful hints, s<k> = DATA in segments of k bytes, b = boxed Status, w = wrapped Status
+//!     F flavour: h = truthful hints, s<k> = DATA in segments of k bytes, b = boxed Status, w = wrapped Status,
+//!                v = the stream is built by tonic's own layer (`client::Grpc::streaming` for resp*/empty,
+//!                    `server::Grpc::streaming` for req) from an `http::Response` / `http::Request` carrying the body
+//!     `Ou` (with v): the whole call through `client::Grpc::unary` / `server::Grpc::unary`, tonic's own draining
+//!                callers; observed U<pendings>:m<hex> | U<pendings>:e<code>:<cls>
 //!     O calls:   n = poll_next, m = one poll of `message()`, t = `trailers().await`
 //! Observed: one token per call — n/m: m<hex> | e<code>:<cls> | n | p ;
 //!     t: T<pendings>:none | T<pendings>:s<grpc-status|-> | T<pendings>:e<code>:<cls> — then a0|a1.
@@ -35,6 +39,9 @@ pub struct Flavour {
     pub seg: usize,
     /// 0 = the `Status` itself (boxed by `Into`), 1 = `Box<dyn Error>` made by hand, 2 = wrapped (`source()`)
     pub err: u8,
+    /// the `Streaming` is not built by the harness but by tonic's own layer: `client::Grpc::streaming`
+    /// (`create_response`) for a response, `server::Grpc::streaming` (`map_request_streaming`) for a request
+    pub via: bool,
 }
 
 impl Flavour {
@@ -51,6 +58,9 @@ impl Flavour {
             2 => s.push_str(".w"),
             _ => {}
         }
+        if self.via {
+            s.push_str(".v");
+        }
         s
     }
     pub fn parse(s: &str) -> Flavour {
@@ -61,6 +71,7 @@ impl Flavour {
                 b's' => f.seg = p[1..].parse().unwrap(),
                 b'b' => f.err = 1,
                 b'w' => f.err = 2,
+                b'v' => f.via = true,
                 _ => panic!("flavour"),
             }
         }
@@ -312,7 +323,14 @@ pub fn execute(case: &str) -> String {
             }
         };
     }
-    let mut out = if prost {
+    let mut out = if flv.via {
+        if prost {
+            let codec = tonic::codec::ProstCodec::<prost_types::Any, prost_types::Any>::default();
+            via(t[1], enc, max, body, codec, ops, &after, |m: &prost_types::Any| prost::Message::encode_to_vec(m))
+        } else {
+            via(t[1], enc, max, body, RawViaCodec(bs), ops, &after, |m: &Vec<u8>| m.clone())
+        }
+    } else if prost {
         // buffer size 8192 is the codec's default: take the decoder the way generated code does
         let dec = if buf_size == 8192 {
             use tonic::codec::Codec;
@@ -331,6 +349,174 @@ pub fn execute(case: &str) -> String {
     out.join(" ")
 }
 
+// ---------- through tonic's own layers ----------
+
+#[derive(Clone, Copy)]
+pub struct RawViaCodec(pub BufferSettings);
+impl tonic::codec::Codec for RawViaCodec {
+    type Encode = Vec<u8>;
+    type Decode = Vec<u8>;
+    type Encoder = RawEnc;
+    type Decoder = RawDec;
+    fn encoder(&mut self) -> RawEnc {
+        RawEnc(self.0)
+    }
+    fn decoder(&mut self) -> RawDec {
+        RawDec(self.0)
+    }
+}
+
+/// the peer of `client::Grpc`: answers the one call with the prepared response
+struct MockSvc(Option<http::Response<FlexBody>>);
+impl tower_service::Service<http::Request<tonic::body::Body>> for MockSvc {
+    type Response = http::Response<FlexBody>;
+    type Error = Box<dyn std::error::Error + Send + Sync>;
+    type Future = std::future::Ready<Result<Self::Response, Self::Error>>;
+    fn poll_ready(&mut self, _: &mut Context<'_>) -> Poll<Result<(), Self::Error>> {
+        Poll::Ready(Ok(()))
+    }
+    fn call(&mut self, _req: http::Request<tonic::body::Body>) -> Self::Future {
+        std::future::ready(Ok(self.0.take().expect("one call per case")))
+    }
+}
+
+/// unary handler: remembers the message it was called with and echoes it
+struct Echo<M>(Arc<std::sync::Mutex<Option<M>>>);
+impl<M: Clone> tonic::server::UnaryService<M> for Echo<M> {
+    type Response = M;
+    type Future = std::future::Ready<Result<tonic::Response<M>, Status>>;
+    fn call(&mut self, request: tonic::Request<M>) -> Self::Future {
+        let m = request.into_inner();
+        *self.0.lock().unwrap() = Some(m.clone());
+        std::future::ready(Ok(tonic::Response::new(m)))
+    }
+}
+
+/// streaming handler: hands the request stream out to the harness
+struct Grab<M>(Arc<std::sync::Mutex<Option<Streaming<M>>>>);
+impl<M: Send + 'static> tonic::server::StreamingService<M> for Grab<M> {
+    type Response = M;
+    type ResponseStream = tokio_stream::Empty<Result<M, Status>>;
+    type Future = std::future::Ready<Result<tonic::Response<Self::ResponseStream>, Status>>;
+    fn call(&mut self, request: tonic::Request<Streaming<M>>) -> Self::Future {
+        *self.0.lock().unwrap() = Some(request.into_inner());
+        std::future::ready(Ok(tonic::Response::new(tokio_stream::empty())))
+    }
+}
+
+/// poll a future to completion with the counting waker; Err = it would never complete
+fn drive<F: Future>(fut: F, after: &Arc<AtomicUsize>) -> Result<(F::Output, usize), &'static str> {
+    let (wakes, waker) = counting_waker(None);
+    let mut cx = Context::from_waker(&waker);
+    let mut fut = Box::pin(fut);
+    let mut pend = 0usize;
+    loop {
+        let (woken_before, refs_before) = (wakes.count(), Arc::strong_count(&wakes));
+        match fut.as_mut().poll(&mut cx) {
+            Poll::Ready(v) => return Ok((v, pend)),
+            Poll::Pending if no_wakeup(&wakes, woken_before, refs_before) => return Err("lost-wakeup"),
+            Poll::Pending => pend += 1,
+        }
+        if after.load(Ordering::SeqCst) > 1000 {
+            return Err("busy-loop");
+        }
+        if pend > 1_000_000 {
+            return Err("hang");
+        }
+    }
+}
+
+#[allow(clippy::too_many_arguments)]
+fn via<C, M>(dir: &str, enc: Option<tonic::codec::CompressionEncoding>, max: Option<usize>, body: FlexBody, codec: C, ops: &str,
+             after: &Arc<AtomicUsize>, ser: impl Fn(&M) -> Vec<u8>) -> Vec<String>
+where
+    C: tonic::codec::Codec<Encode = M, Decode = M> + Send + Sync + 'static,
+    M: Clone + Default + Send + Sync + 'static,
+{
+    let unary = ops == "u";
+    let un_tok = |pend: usize, r: Result<M, Status>| match r {
+        Ok(m) => format!("U{}:m{}", pend, hexr(&ser(&m))),
+        Err(st) => format!("U{}:{}", pend, st_tok("e", &st)),
+    };
+    if dir == "req" {
+        // ---- server side: `server::Grpc` configured as generated code configures it ----
+        let mut grpc = tonic::server::Grpc::new(codec);
+        if let Some(e) = enc {
+            grpc = grpc.accept_compressed(e);
+        }
+        if let Some(m) = max {
+            grpc = grpc.max_decoding_message_size(m);
+        }
+        let mut rb = http::Request::builder().method("POST").uri("http://h/s/m").header("content-type", "application/grpc").header("te", "trailers");
+        if enc.is_some() {
+            rb = rb.header("grpc-encoding", enc_name(enc));
+        }
+        let req = rb.body(body).unwrap();
+        if unary {
+            let slot = Arc::new(std::sync::Mutex::new(None));
+            match drive(grpc.unary(Echo(slot.clone()), req), after) {
+                Err(e) => vec![e.to_string()],
+                Ok((resp, pend)) => {
+                    let seen: Option<M> = slot.lock().unwrap().take();
+                    match seen {
+                        Some(m) => vec![un_tok(pend, Ok(m))],
+                        None => match Status::from_header_map(resp.headers()) {
+                            Some(st) => vec![un_tok(pend, Err(st))],
+                            None => vec!["via-no-status".to_string()],
+                        },
+                    }
+                }
+            }
+        } else {
+            let slot = Arc::new(std::sync::Mutex::new(None));
+            match drive(grpc.streaming(Grab(slot.clone()), req), after) {
+                Err(e) => vec![e.to_string()],
+                Ok((_resp, _)) => {
+                    let got: Option<Streaming<M>> = slot.lock().unwrap().take();
+                    match got {
+                        Some(stream) => run_ops(stream, ops, after, ser),
+                        None => vec!["via-not-called".to_string()],
+                    }
+                }
+            }
+        }
+    } else {
+        // ---- client side: `client::Grpc` over a service that answers with the scripted response ----
+        let mut rb = http::Response::builder().header("content-type", "application/grpc");
+        if dir == "empty" {
+            // Trailers-Only: grpc-status in the response head
+            rb = rb.status(200).header("grpc-status", "0");
+        } else {
+            rb = rb.status(dir[4..].parse::<u16>().unwrap());
+            if enc.is_some() {
+                rb = rb.header("grpc-encoding", enc_name(enc));
+            }
+        }
+        let resp = rb.body(body).unwrap();
+        let mut grpc = tonic::client::Grpc::new(MockSvc(Some(resp)));
+        if let Some(e) = enc {
+            grpc = grpc.accept_compressed(e);
+        }
+        if let Some(m) = max {
+            grpc = grpc.max_decoding_message_size(m);
+        }
+        let path = http::uri::PathAndQuery::from_static("/s/m");
+        if unary {
+            match drive(grpc.unary(tonic::Request::new(M::default()), path, codec), after) {
+                Err(e) => vec![e.to_string()],
+                Ok((r, pend)) => vec![un_tok(pend, r.map(|r| r.into_inner()))],
+            }
+        } else {
+            let r = drive(grpc.streaming(tonic::Request::new(tokio_stream::empty::<M>()), path, codec), after);
+            match r {
+                Err(e) => vec![e.to_string()],
+                Ok((Err(st), _)) => vec![format!("via-err:{}", st_tok("e", &st))],
+                Ok((Ok(resp), _)) => run_ops(resp.into_inner(), ops, after, ser),
+            }
+        }
+    }
+}
+
 // ---------- generator ----------
 
 fn npolls_of(line: &str) -> usize {
@@ -338,7 +524,7 @@ fn npolls_of(line: &str) -> usize {
 }
 
 pub fn gen_flavour(rng: &mut Rng) -> Flavour {
-    Flavour { hints: rng.chance(1, 2), seg: *rng.pick(&[0usize, 0, 1, 2, 3, 4, 5, 7]), err: rng.below(3) as u8 }
+    Flavour { hints: rng.chance(1, 2), seg: *rng.pick(&[0usize, 0, 1, 2, 3, 4, 5, 7]), err: rng.below(3) as u8, via: rng.chance(1, 3) }
 }
 
 /// the consumer's calls: `n` of them (with `trailers()` draining, later calls find a finished stream)
@@ -388,8 +574,8 @@ pub fn generate(tier: &str, rng: &mut Rng) -> Vec<String> {
     let thorough = tier == "thorough";
     let mut out = Vec::new();
     // ---- corpus ----
-    let h = Flavour { hints: true, seg: 0, err: 0 };
-    let hs = Flavour { hints: true, seg: 2, err: 2 };
+    let h = Flavour { hints: true, seg: 0, err: 0, via: false };
+    let hs = Flavour { hints: true, seg: 2, err: 2, via: false };
     for (line, ops) in [
         // a body that reports `is_end_stream()` while tonic holds a truncated frame: still Unexpected EOF
         ("dec req none none 8192 4 Z 0 EV d00000000050102", "Onnnn"),
@@ -409,8 +595,12 @@ pub fn generate(tier: &str, rng: &mut Rng) -> Vec<String> {
         // trailers mid-stream, data behind them
         ("dec resp200 none none 8192 8 Z 0 EV d000000000109 t0 d000000000108 d07", "Omtmtnnn"),
     ] {
-        for f in [Flavour::default(), h, hs] {
+        for f in [Flavour::default(), h, hs, Flavour { via: true, ..h }, Flavour { via: true, ..hs }] {
             out.push(wrap(f, ops, line));
+        }
+        if !line.contains(" empty ") {
+            out.push(wrap(Flavour { via: true, ..Flavour::default() }, "Ou", line));
+            out.push(wrap(Flavour { via: true, ..hs }, "Ou", line));
         }
     }
     // ---- every flavour x consumer over the hostile generators of the framing family ----
@@ -421,8 +611,13 @@ pub fn generate(tier: &str, rng: &mut Rng) -> Vec<String> {
             2 => gen_pdec_hostile(rng).pline(),
             _ => gen_dec_valid(rng, true).line(),
         };
-        let flv = gen_flavour(rng);
-        let ops = gen_ops(rng, npolls_of(&line));
+        let mut flv = gen_flavour(rng);
+        let mut ops = gen_ops(rng, npolls_of(&line));
+        if i % 5 == 4 {
+            // the whole call through tonic's own draining callers (`Grpc::unary` on either side)
+            flv.via = true;
+            ops = "Ou".to_string();
+        }
         out.push(wrap(flv, &ops, &line));
     }
     // ---- every truncation point of a few streams, under truthful hints and segmented DATA ----
@@ -437,7 +632,7 @@ pub fn generate(tier: &str, rng: &mut Rng) -> Vec<String> {
             let evs = events_from_chunks(rng, chunks, pend);
             let dir = if rng.chance(1, 2) { "req".to_string() } else { "resp200".to_string() };
             let line = DecCase { dir, enc, max: None, buf_size: *rng.pick(&BUF_SIZES), evs, stream: b.to_vec(), extra_polls: 3 }.line();
-            let flv = Flavour { hints: true, seg: *rng.pick(&[0usize, 1, 3]), err: 0 };
+            let flv = Flavour { hints: true, seg: *rng.pick(&[0usize, 1, 3]), err: 0, via: rng.chance(1, 4) };
             let ops = if rng.chance(1, 3) { gen_ops(rng, npolls_of(&line)) } else { format!("O{}", "n".repeat(npolls_of(&line))) };
             out.push(wrap(flv, &ops, &line));
         }
